@@ -26,10 +26,6 @@ def run(ck):
     out2 = os.path.join(ck.tmp, "c13_out.json")
     ck.run_driver("./c13", "^TestTear$", {"VERIF_OUT": tr, "VERIF_OUT2": out2}, timeout=3000)
     res = ck.read_result(out2)
-    if res["gated_overlaps"] < 10:
-        raise Infra("dead driver: only %d overlaps were gated at frame.prefix (hook not firing?)" % res["gated_overlaps"])
-    if res["parked_at_ws_write"] < 5:
-        raise Infra("dead driver: only %d responses were parked at ws.write (hook not firing?)" % res["parked_at_ws_write"])
     ck.cov["responses_parked_at_ws_write"] = res["parked_at_ws_write"]
     if res["changed_while_parked"]:
         ck.notes.append("%d responses changed in their buffer while parked before the WebSocket write (two writers share a pooled buffer)" % res["changed_while_parked"])
@@ -54,12 +50,21 @@ def run(ck):
             continue
         key = "%s:%s" % (b["why"], tp)
         ck.violation(key, "transport %s: %s: %s" % (tp, b["why"], json.dumps(b["ev"])[:300]), b)
+    # an execution that breaks off at a torn message gates little: that is a verdict above, not a dead driver
+    if not ck.violations and res["gated_overlaps"] < 10:
+        raise Infra("dead driver: only %d overlaps were gated at frame.prefix (hook not firing?)" % res["gated_overlaps"])
+    if not ck.violations and res["parked_at_ws_write"] < 5:
+        raise Infra("dead driver: only %d responses were parked at ws.write (hook not firing?)" % res["parked_at_ws_write"])
     if vacuous and not ck.violations:
         raise Infra("vacuous: executions %s received no media frame" % vacuous)
+    # the WebSocket players of the transport leg (ws-rtsp and WSP, both tracks / video track only, slow socket writes):
+    # every message they read must be exactly one complete frame or response
+    from checks import c01
+    c01.transports(ck, prefix="C13:")
     ck.sample({"execution": begins.get(1), "first_items": [json.loads(l) for l in lines[1:12]]})
     ck.assumptions += ["the media writer is parked by the verif hook frame.prefix between prefix and payload; the request is sent in that window; the gate opens when the request handler is seen parked on the write lock (goroutine dump) or after 40 ms",
                        "on WebSocket a response is also parked at the entry of the WebSocket write (hook ws.write) for 4 ms while three players' media writers use the shared buffer pool (GOMAXPROCS 4 in that window)",
-                       "WSP data channel uses the same tcpConsumer code path as ws-rtsp (wsconn != nil); it is exercised by the C11/C01 server drivers"]
+                       "the WSP data channel (its own Consume in service/wsp) and ws-rtsp players that set up both tracks or the video track only are read by the strict parser in the transport leg (shared with C01)"]
 
 
 META = {
